@@ -211,3 +211,27 @@ func TestVerifSearch_OnMoved(t *testing.T) {
 		}
 	}
 }
+
+// ---- OnSClosed: a backend connection closes with a request awaiting its reply ----
+func (s *verifSConn) DequeueInFrag() *core.Frag {
+	if len(s.queued) == 0 {
+		return nil
+	}
+	f := s.queued[0]
+	s.queued = s.queued[1:]
+	return f
+}
+func (s *verifSConn) LocalAddr() string { return "proxy:1" }
+
+func TestVerifSearch_OnSClosed(t *testing.T) {
+	ls := &listenServer{Options: &Options{}}
+	o := &verifOwner{open: true}
+	m := &core.Msg{Type: codec.ReqGet}
+	f := &core.Frag{Owner: o, Peer: m, Type: codec.ReqGet, Req: []byte("*2\r\n$3\r\nget\r\n$1\r\nk\r\n")}
+	m.Body = map[int32]*core.Frag{5: f}
+	s := &verifSConn{queued: []*core.Frag{f}} // written to the backend, reply outstanding
+	ls.OnSClosed(s, fmt.Errorf("connection reset by peer"))
+	if !f.Done && !m.Done && o.open && len(m.RspBody) == 0 {
+		verifWitness(t, "backend connection lost with GET k written and its reply outstanding: OnSClosed only logs; the request is neither completed with an error nor is its client closed, so (without a request timeout) the client waits forever")
+	}
+}
